@@ -51,7 +51,7 @@ fn env_or(name: &str, default: &str) -> String {
 pub fn make_env(cfg: &Cfg) -> Env {
     let mut host_bins = Vec::new();
     for b in [Backend::Syn1, Backend::Syn2] {
-        for k in [Build::Plain, Build::Hooked] {
+        for k in [Build::Plain, Build::Hooked, Build::PlainB] {
             let p = cfg.build_dir.join(format!("target-{}-{}/debug/simhost", b.tag(), k.tag()));
             if p.exists() {
                 host_bins.push(((b, k), p));
@@ -314,7 +314,7 @@ fn host_summary(h: &HostCfg) -> Value {
         "entropy_seed": h.entropy_seed, "entropy_skip": h.entropy_skip,
         "env": h.env.iter().map(|(k, v)| format!("{}={}", k, if v.len() > 24 { format!("<{} bytes>", v.len()) } else { v.clone() })).collect::<Vec<_>>(),
         "clock_epoch_ns": h.clock_epoch_ns, "clock_step_ns": h.clock_step_ns, "pid": h.pid, "cwd": h.cwd, "argv": h.argv,
-        "hostname": h.hostname, "uid": h.uid, "ncpu": h.ncpu, "exe": h.exe, "warm_disk": h.warm_disk,
+        "hostname": h.hostname, "uid": h.uid, "ncpu": h.ncpu, "exe": h.exe, "warm_disk": h.warm_disk, "second_build": h.alt_build,
         "fs_view": h.fs_map.iter().map(|(k, key, c)| format!("{} {} <{} bytes>", k, key, c.len())).collect::<Vec<_>>(),
         "history": if ev.len() > 60 { let mut e = ev[..60].to_vec(); e.push(format!("... {} more", ev.len() - 60)); e } else { ev },
     })
@@ -446,7 +446,7 @@ fn run_planned_world(env: &Env, idx: usize, ws: u64, w: World, want_sample: bool
         for n in fault_names(fired) {
             *st.fault_fired_hosts.entry(n.to_string()).or_default() += 1;
         }
-        st.distinct_fault_vectors.insert(fnv64(format!("{:?}|{}|{}|{}|{}|{:?}|{:?}|{:?}|{:?}|{:?}|{:?}|{:?}", h.env, h.entropy_seed, h.clock_epoch_ns, h.clock_step_ns, h.pid, h.cwd, h.argv, h.hostname, h.uid, h.ncpu, h.fs_map, (h.warm_disk, &h.exe)).as_bytes()));
+        st.distinct_fault_vectors.insert(fnv64(format!("{:?}|{}|{}|{}|{}|{:?}|{:?}|{:?}|{:?}|{:?}|{:?}|{:?}", h.env, h.entropy_seed, h.clock_epoch_ns, h.clock_step_ns, h.pid, h.cwd, h.argv, h.hostname, h.uid, h.ncpu, h.fs_map, (h.warm_disk, &h.exe, h.alt_build)).as_bytes()));
 
         let host_hist_hash = events_hash(&h.events);
         // position of each observation in the host's history, counting expansions only
@@ -615,7 +615,7 @@ fn hostcfg_to_json(h: &HostCfg) -> Value {
         "pid": h.pid, "cwd": h.cwd, "argv": h.argv, "events": ev,
         "hostname": h.hostname, "uid": h.uid, "ncpu": h.ncpu, "exe": h.exe,
         "fs_map": h.fs_map.iter().map(|(k, key, c)| json!([k.to_string(), key, c])).collect::<Vec<_>>(),
-        "warm_disk": h.warm_disk,
+        "warm_disk": h.warm_disk, "alt_build": h.alt_build,
     })
 }
 
@@ -638,6 +638,7 @@ fn hostcfg_from_json(v: &Value) -> Option<HostCfg> {
     h.ncpu = v["ncpu"].as_u64().map(|x| x as u32);
     h.exe = v["exe"].as_str().map(|s| s.to_string());
     h.warm_disk = v["warm_disk"].as_bool().unwrap_or(false);
+    h.alt_build = v["alt_build"].as_bool().unwrap_or(false);
     if let Some(a) = v["fs_map"].as_array() {
         for e in a {
             h.fs_map.push((e[0].as_str()?.chars().next()?, e[1].as_str()?.to_string(), e[2].as_str()?.to_string()));
